@@ -649,6 +649,22 @@ Theorem C17_formats_for_every_declaration : forall e,
 Proof. exact formats_universal. Qed.
 Print Assumptions C17_formats_for_every_declaration.
 
+Theorem C17_strcase_calls_for_every_declaration : forall e s,
+  component_name e s = apply_fn (the_fn "componentName") (e_name e) ++ apply_fn (the_fn "componentName") s
+  /\ full_name e = e_pkg e ++ [46] ++ apply_fn (the_fn "fullName") (e_name e)
+  /\ snake_name e = apply_fn EntityGen.entity_name_function (e_name e)
+  /\ status_prefix e = apply_fn (the_fn "acceptStatus") (e_name e) ++ the_status_literal
+  /\ status_prefix e = apply_fn (the_fn "findStatus") (e_name e) ++ the_status_literal
+  /\ map f_json (m_fields (event_type_msg e)) = map (fun ev => apply_fn (the_fn "acceptEventOneof") (ev_name ev)) (e_events e)
+  /\ query_prefix e = apply_fn "ToCamel" (snake_name e)
+  /\ own_response_name e = apply_fn "ToSnake" (apply_fn "ToLowerCamel" (snake_name e))
+  /\ camel_name e = apply_fn (the_fn "acceptPublishTopic") (e_name e)
+  /\ (forall sm, summary_topic_name e sm =
+        apply_fn (the_fn "acceptSummaryTopics") (e_name e)
+        ++ match s_name sm with [] => bs "Summary" | n => apply_fn (the_fn "acceptSummaryTopics") n end).
+Proof. exact strcase_calls_universal. Qed.
+Print Assumptions C17_strcase_calls_for_every_declaration.
+
 Theorem C17_strcase_calls_from_model : strcase_calls_from_model_stmt.
 Proof. exact strcase_calls_from_model. Qed.
 Print Assumptions C17_strcase_calls_from_model.
